@@ -88,6 +88,7 @@ extern "C" void h_session() {
         f.open(VP_FILE("a.blf"), std::ios_base::out);
         VP_ASSERT(f.is_open());
         for (int i = 0; i < NOBJ; i++) f.write(objs[i]);
+        vp_sched_point("before_close");
         f.close();
         VP_ASSERT(!f.is_open());
         hdrUncompressed = f.fileStatistics.uncompressedFileSize; hdrFileSize = f.fileStatistics.fileSize;
